@@ -239,7 +239,7 @@ func runC02(k *eng.Check, tier string) {
 	if fn := k.Fn("store/nbs.updateBSWithChecker"); fn != nil {
 		put := eng.CallSet(fn, eng.Named(`^iface:store/blobstore\.Blobstore\.CheckAndPut`))
 		lockOK := eng.CondEdgesP(fn, func(v ssa.Value) bool {
-			return eng.CompareOf(v, eng.IsField(mcLock), eng.IsParamOfType("store/hash.Hash"), token.NEQ, token.EQL)
+			return eng.CompareOf(v, eng.IsField(mcLock), eng.IsParamOfType("store/hash.Hash"), token.NEQ)
 		}, false)
 		lockOK2 := eng.CondEdgesP(fn, func(v ssa.Value) bool {
 			return eng.CompareOf(v, eng.IsField(mcLock), eng.IsParamOfType("store/hash.Hash"), token.EQL)
